@@ -90,7 +90,7 @@ pub fn check(rep: &Report) {
     let n_gen = if quick { 6_000 } else { 150_000 };
     let n_scen = if quick { 600 } else { 15_000 };
     let n_imp = if quick { 2_000 } else { 50_000 };
-    let n_cli = if quick { 48 } else { 1_500 };
+    let n_cli = if quick { 160 } else { 3_000 };
     let total = items.len() + n_gen + n_scen + n_imp + n_cli;
     let have_cli = std::path::Path::new(&format!("{}/harness/target/repo-cli/debug/quiv", crate::report::verif_root())).exists();
     if !have_cli { rep.inconclusive(json!({"why": "quiv binary not built; CLI family skipped"})); }
@@ -128,8 +128,24 @@ pub fn check(rep: &Report) {
             if src.contains('@') || src.contains('!') || does_io(&src) || src.contains("%ref") || src.contains("&.") { rep.count("cli_skipped_process_or_io_program", 1); return; }
             // `quiv run` wants a program that evaluates to a function: wrap it (a block cannot declare aliases)
             if src.lines().any(|l| l.trim_start().starts_with('\'')) || src.contains(", '") { rep.count("cli_skipped_program_with_type_aliases", 1); return; }
+            // two ways of handing the program to the CLI: wrapped whole in a function, or with its steps at the top level (run
+            // when the entry function is extracted) and a closure over them as the entry; the second goes through the CLI's own
+            // top-level compile path
+            let top_level = rng.chance(1, 2);
+            let src = if top_level && rng.chance(1, 3) { crate::c01::ill_mutate(&src, &mut rng) } else { src };
+            let wrapped = if top_level { let steps = split_top(&src); if steps.len() < 2 { return; } format!("{},\n#{{ {} }}", steps[..steps.len() - 1].join(",\n"), steps[steps.len() - 1]) } else { format!("#{{ {} }}", src) };
+            if top_level {
+                // acceptance must agree between the library and the CLI
+                let lib_ok = qv::compile(&src, &b).is_ok();
+                let qx = format!("{}/harness/target/c10a-{}-{}.qx", crate::report::verif_root(), std::process::id(), j);
+                let cli_ok = cli(&["compile", "-e", &wrapped, "-o", &qx], None).map(|r| r.0);
+                std::fs::remove_file(&qx).ok();
+                if let Some(cli_ok) = cli_ok { rep.eval(1); rep.count("cli_acceptance_compared_with_library", 1); if !lib_ok { rep.count("cli_acceptance_compared_on_a_rejected_program", 1); }
+                    // (a top-level step that evaluates to nil makes the CLI fail to find an entry function: only judged when the library rejects)
+                    if !lib_ok && cli_ok { viol("cli-accepts-what-the-library-rejects", format!("`quiv compile` accepted a program the library compiler rejects ({:?})", qv::compile(&src, &b).err()), json!({"program": src, "cli_source": wrapped})); return; } }
+            }
             let Ok(cp) = qv::compile(&src, &b) else { return };
-            let wrapped = format!("#{{ {} }}", src);
+            if top_level { rep.count("cli_top_level_programs", 1); }
             watch.enter(j, &src);
             let direct = cli(&["run", "-e", &wrapped], None);
             let qx = format!("{}/harness/target/c10-{}-{}.qx", crate::report::verif_root(), std::process::id(), j);
@@ -145,7 +161,7 @@ pub fn check(rep: &Report) {
                 if !d.1.contains('<') && !d.1.is_empty() { match qv::compile(&d.1, &b).ok().map(|cp2| outcome(&[], &cp2.program.to_bytecode(Some(cp2.entry)), &b)) { Some(Ok(o2)) => { rep.count("cli_output_reevaluated_and_compared_with_in_process_value", 1); if o2.get("root").map(|s| s.as_str()) != Some(&format!("value {}", v)) { viol("cli-differs-from-library", format!("`quiv run` printed {} which evaluates to {:?}; the in-process run gave {}", d.1, o2.get("root"), v), json!({"program": src, "cli": d.1, "in_process": v})); } } _ => rep.count("cli_output_not_reevaluable", 1) } }
             } }
             // (a nil result is exit status 1 with no output, by design)
-            if !d.0 && matches!(&mine, Ok(m) if m.get("root").map(|s| s.starts_with("value") && s != "value []").unwrap_or(false)) { viol("cli-fails-where-library-succeeds", format!("`quiv run -e` failed but the in-process run produced {:?}", mine), json!({"program": src})); }
+            if !d.0 && !top_level && matches!(&mine, Ok(m) if m.get("root").map(|s| s.starts_with("value") && s != "value []").unwrap_or(false)) { viol("cli-fails-where-library-succeeds", format!("`quiv run -e` failed but the in-process run produced {:?}", mine), json!({"program": src})); }
             return;
         }
         // ---------------- packaging paths
@@ -191,4 +207,4 @@ pub fn check(rep: &Report) {
 
 pub const RULE: &str = "for every accepted program of the workload: canonical outcome (value with function indices erased / error / fates of all processes) as compiled == after tree_shake == after a serde_json round trip (plain and shaken) == when merged into an environment after 1-4 other programs (plain or shaken, sometimes including a copy of itself); `quiv run -e` prints what `quiv compile` + `quiv run` prints, and that text re-evaluates to the in-process value; `%lib` / `%lib.member` == the module body evaluated in place";
 pub const ASSUME: &[&str] = &["outcomes are compared after erasing function indices (packaging renumbers them)", "CLI family: programs without processes or I/O, 20 s per invocation", "import family: module bodies without type aliases (a block cannot declare them)"];
-pub const SITUATIONS: &[&str] = &["path=tree-shake", "path=json-round-trip", "path=merge", "merged_after_a_copy_of_itself", "import_vs_in_place_compared", "import_of_a_function_member", "cli_run_vs_compile_then_run", "process-scenarios_programs", "corpus_programs", "generated_programs"];
+pub const SITUATIONS: &[&str] = &["path=tree-shake", "path=json-round-trip", "path=merge", "merged_after_a_copy_of_itself", "import_vs_in_place_compared", "import_of_a_function_member", "cli_run_vs_compile_then_run", "cli_top_level_programs", "cli_acceptance_compared_on_a_rejected_program", "process-scenarios_programs", "corpus_programs", "generated_programs"];
